@@ -1513,12 +1513,14 @@ class ComputeGraph(MultiDiGraph):
         if label == "t":
             return label
         if label in self._node_names:
-            n = self._node_names[label]
-            if n == 0:
-                label_new = f"{label}_v1"
-            else:
-                label_new = f"{label}_v{n + 1}"
-            self._node_names[label] += 1
+            # skip over candidates that are already taken, e.g. by a user-defined variable called `x_v1`
+            n = self._node_names[label] + 1
+            label_new = f"{label}_v{n}"
+            while label_new in self._node_names:
+                n += 1
+                label_new = f"{label}_v{n}"
+            self._node_names[label] = n
+            self._node_names[label_new] = 0
         else:
             label_new = label
             self._node_names[label] = 0
